@@ -54,7 +54,7 @@ def stack_gen(UO, UB, nstacks, seed):
                 layers = [[p for p in layers[0] if p['k'] in ('var', 'vkw')]] * depth
                 kinds, fls, reuse = [kinds[0]] * depth, [{'n': 0, 'names': []}] * depth, True
             if k % nshards == shard:
-                yield wrapstack.stack_event('stack/%d' % k, layers, base, kinds, fls, placement, reuse=reuse)
+                yield wrapstack.stack_event('stack/%d' % k, layers, base, kinds, fls, placement, reuse=reuse, sigattr=(k % 7 == 3))
     return gen
 
 
@@ -113,5 +113,5 @@ def replay(check, case, scratch):
             if 'funcs' in c:
                 yield wrapstack.combination_event(case['tid'], c['funcs'], wrapped_member=c.get('wrapped_member', False))
             else:
-                yield wrapstack.stack_event(case['tid'], c['layers'], c['base'], c['kinds'], c['fls'], c['placement'], reuse=c.get('reuse', False))
+                yield wrapstack.stack_event(case['tid'], c['layers'], c['base'], c['kinds'], c['fls'], c['placement'], reuse=c.get('reuse', False), sigattr=c.get('sigattr', False))
     run_trace_leg(check, scratch, 'replay', gen, None, nshards=1, module='Trace_Wrap', describe=wrapstack.describe, classify=classify)
